@@ -651,4 +651,10 @@ def widen(old, new):
     for i in old.ineq:
         if new.entails_ineq(i):
             out.add_ineq(i)
+    out.neq = []
+    for d in old.neq:
+        if new.entails_neq(d):
+            out.add_neq(d)
+    ko = {repr(c) for c in old.cond}
+    out.cond = [c for c in new.cond if repr(c) in ko]
     return out
